@@ -650,6 +650,10 @@ func TestSocketBackends(t *testing.T) {
 		}
 		defer kit.Close()
 		flushes := rapid.IntRange(1, 3).Draw(t, "flushes")
+		if mode == "accept" && rapid.IntRange(0, 5).Draw(t, "long-lived-connection") == 0 {
+			// many flush requests over one healthy connection (a sender recycles its connection every so often)
+			flushes = rapid.SampledFrom([]int{101, 205, 310}).Draw(t, "many-flushes")
+		}
 		if (mode == "close-listener-then-send" || mode == "outage-many-requests") && kit.Loop != nil {
 			kit.Loop.Close()
 		}
@@ -718,8 +722,11 @@ func TestSocketBackends(t *testing.T) {
 			var calls int32
 			cb := make(chan []error, 4)
 			ret := make(chan interface{}, 1)
-			series := rapid.SampledFrom([]int{0, 1, 3, 400}).Draw(t, "series")
-			if variant == "statsdaemon/udp" && rapid.IntRange(0, 7).Draw(t, "huge-flush") == 0 {
+			series := 1
+			if flushes <= 3 {
+				series = rapid.SampledFrom([]int{0, 1, 3, 400}).Draw(t, "series")
+			}
+			if flushes <= 3 && variant == "statsdaemon/udp" && rapid.IntRange(0, 7).Draw(t, "huge-flush") == 0 {
 				series = 120000 // more datagrams than any internal queue of the backend holds (1000)
 			}
 			go func() {
@@ -747,9 +754,13 @@ func TestSocketBackends(t *testing.T) {
 				vt.Fail(t, "C16:no-callback:"+variant, "%s mode %s: SendMetricsAsync did not return", variant, mode)
 			}
 			cancel()
-			time.Sleep(2 * time.Millisecond)
+			if flushes <= 3 || f%50 == 49 || f == flushes-1 {
+				time.Sleep(2 * time.Millisecond)
+			} else {
+				time.Sleep(50 * time.Microsecond)
+			}
 			if n := atomic.LoadInt32(&calls); n != 1 {
-				vt.Fail(t, "C16:callback-count:"+variant, "%s mode %s: callback invoked %d times", variant, mode, n)
+				vt.Fail(t, "C16:callback-count:"+variant, "%s mode %s: callback of flush %d of %d invoked %d times", variant, mode, f+1, flushes, n)
 			}
 		}
 		ev.C().Case(fmt.Sprintf("K|%s|%s|%d", variant, mode, flushes), mode != "accept" && kit.Loop != nil, "socket", "variant="+variant, "mode="+mode)
